@@ -303,3 +303,72 @@ func ruleConfiguredLimitStored(c *Ctx) {
 	}
 	c.Floor(rule, "stores of max/guaranteed in setResources", n, 4)
 }
+
+func init() { registerExtra("C18", ruleMulValBlindSpot) }
+
+// ruleMulValBlindSpot: the divide-back wrap test of mulVal has exactly one blind spot,
+// MinInt64 / -1 == MinInt64; the special case must name the divisor as the -1 operand.
+func ruleMulValBlindSpot(c *Ctx) {
+	p := c.p
+	c.Rule("C18.b2", "mulVal's divide-back test `result/D != N` is blind exactly for N == MinInt64 && D == -1 (MinInt64 / -1 wraps): the explicit special case must test the dividend operand N against MinInt64 and the divisor D against -1")
+	fn := c.MustFunc("C18.b2", "resources.mulVal")
+	if fn == nil {
+		return
+	}
+	var div *ast.BinaryExpr
+	var minOf, negOf []ast.Expr
+	ast.Inspect(fn.Decl.Body, func(n ast.Node) bool {
+		be, ok := n.(*ast.BinaryExpr)
+		if !ok {
+			return true
+		}
+		switch be.Op {
+		case token.QUO:
+			if div == nil {
+				div = be
+			}
+		case token.EQL:
+			for _, pr := range [][2]ast.Expr{{be.X, be.Y}, {be.Y, be.X}} {
+				if strings.HasSuffix(p.Src(pr[1]), "MinInt64") {
+					minOf = append(minOf, pr[0])
+				}
+				if v, isC := p.ConstInt(pr[1]); isC && v == -1 {
+					negOf = append(negOf, pr[0])
+				}
+			}
+		}
+		return true
+	})
+	if div == nil {
+		c.Check("C18.b2", "divide-back test present in mulVal", fn.Decl, false, "no division found in mulVal")
+		return
+	}
+	// the division is compared with the other operand
+	cmp, _ := p.Parent(div).(*ast.BinaryExpr)
+	for cmp == nil {
+		if pe, ok := p.Parent(div).(*ast.ParenExpr); ok {
+			cmp, _ = p.Parent(pe).(*ast.BinaryExpr)
+		}
+		break
+	}
+	other := ""
+	if cmp != nil && cmp.Op == token.NEQ {
+		if unparen(cmp.X) == ast.Expr(div) {
+			other = p.Src(cmp.Y)
+		} else {
+			other = p.Src(cmp.X)
+		}
+	}
+	okNeg, okMin := false, false
+	for _, e := range negOf {
+		if p.Src(e) == p.Src(div.Y) {
+			okNeg = true
+		}
+	}
+	for _, e := range minOf {
+		if p.Src(e) == other && other != "" {
+			okMin = true
+		}
+	}
+	c.Check("C18.b2", "special case matches the divisor of the divide-back test", div, okNeg && okMin, "the wrap test divides by %s and compares with %s, but the special case does not test %s == -1 && %s == math.MinInt64: the blind spot of the division (MinInt64 / -1) is not the pair that is handled", p.Src(div.Y), other, p.Src(div.Y), other)
+}
